@@ -169,9 +169,8 @@ def run(chk):
     nbase, limit = (10, 60) if chk.quick() else (120, 300)
     bases = [build_base(rnd) for _ in range(nbase)] + [build_base(rnd, wrapped=True) for _ in range(2 if chk.quick() else 20)] + [build_big_base(rnd) for _ in range(3 if chk.quick() else 30)]
     lines, impl, refouts = session.run(chk, bases, stream="session-crash-ref")
-    # wide bases: the model needs minutes per run at this size; these are run against the oracle alone
-    wides = [build_wide_base(rnd) for _ in range(2 if chk.quick() else 12)]
-    wlines, wimpl, wrefouts = session.run(chk, wides, stream="session-crash-wide-ref", with_model=False)
+    wides = [build_wide_base(rnd) for _ in range(1 if chk.quick() else 12)]
+    wlines, wimpl, wrefouts = session.run(chk, wides, stream="session-crash-wide-ref")
     cases, wcases = [], []
     for b, ro in list(zip(bases, refouts)) + list(zip(wides, wrefouts)):
         if len(ro) != len(b.ops):
@@ -188,7 +187,7 @@ def run(chk):
             # power loss while the parity rows are being collected / during back substitution
             first_coded = b.meta["seg_ops"][len([i for i in b.meta["seq"] if i <= b.meta["n"]])]
             idxs = [k for k in idxs if (crash.locate(shifted, k) or (0, 0))[0] >= first_coded + 6]
-            lim = (24 if chk.quick() else 60) if b.meta.get("wide") else limit
+            lim = (16 if chk.quick() else 60) if b.meta.get("wide") else limit
             if len(idxs) > lim:
                 keep = set(rnd.sample(idxs, lim)); idxs = [k for k in idxs if k in keep]
         for k in idxs:
@@ -197,7 +196,7 @@ def run(chk):
                 c.meta["window"] = window(b, ro, shifted, k, resend)
                 (wcases if b.meta.get("wide") else cases).append(c)
     clines, cimpl, couts = session.run(chk, cases, stream="session-crash")
-    wclines, wcimpl, wcouts = session.run(chk, wcases, stream="session-crash-wide", with_model=False)
+    wclines, wcimpl, wcouts = session.run(chk, wcases, stream="session-crash-wide")
     nt, dist = [], {"phase": {}, "window_a": 0, "window_b": 0, "resend": 0, "lost": 0, "wide": len(wcases)}
     for s, l, raw, out in list(zip(cases, clines, cimpl, couts)) + list(zip(wcases, wclines, wcimpl, wcouts)):
         if len(out) != len(s.ops):
@@ -211,7 +210,7 @@ def run(chk):
         nt.append(l)
     chk.note_cases("session-crash", clines + wclines, nt, sample_n=1, dist=dist)
     return chk.finish(level="proof",
-        rule="session-crash: for each base delivery (capacity >= 1, up to 6 losses, three delivery orders, ring positions from random earlier updates and explicitly the pair that wraps the ring end; plus big-loss bases with 9..20 losses where power is lost from the seventh coded fragment on; plus wide bases - 520..620 one-byte fragments, one 256-aligned window of the status table never written and losses behind it, power lost during parity processing, oracle only because the model needs minutes per run at this size) power is lost at every modifying flash operation of start_update, every handle_segment and check_and_mark_done "
+        rule="session-crash: for each base delivery (capacity >= 1, up to 6 losses, three delivery orders, ring positions from random earlier updates and explicitly the pair that wraps the ring end; plus big-loss bases with 9..20 losses where power is lost from the seventh coded fragment on; plus wide bases - 520..620 one-byte fragments, one 256-aligned window of the status table never written and losses behind it, power lost during parity processing) power is lost at every modifying flash operation of start_update, every handle_segment and check_and_mark_done "
              "(all boundaries; inside long erase runs the first, second and last block; sampled when a script has more than %d), each with both continuations (interrupted fragment re-sent / lost), then reboot, try_recover, remainder, one full data pass, final check; "
              "non-trivial = every crash case; distinct by case text" % limit,
         trusted=core.TRUSTED_COMMON + ["C06: power loss = prefix of the operation log (block-atomic erase); torn programs are C04's"])
